@@ -1003,6 +1003,11 @@ class Channel(typing.ContextManager):
             chan.sendintr()
         """
         chan_io = self._c
+        if isinstance(chan_io, ChannelBorrowed):
+            # This handle is currently borrowed itself (or was taken).  Handing out
+            # the sentinel would create a dead channel - and restoring it later
+            # would resurrect a handle which was taken in the meantime.
+            raise chan_io.exception()
         try:
             self._c = ChannelBorrowed()
             new = copy.deepcopy(self)
@@ -1024,6 +1029,9 @@ class Channel(typing.ContextManager):
         from U-Boot to Linux, U-Boot is no longer accessible.
         """
         chan_io = self._c
+        if isinstance(chan_io, ChannelBorrowed):
+            # Cannot take a channel which is currently borrowed or was already taken.
+            raise chan_io.exception()
         self._c = ChannelTaken()
         new = copy.deepcopy(self)
         new._c = chan_io
